@@ -103,6 +103,12 @@ func TestTimeExpressionDetectionFailure(t *testing.T) {
 		"<PARSE-ERROR>")
 }
 
+func TestTimeExpressionConstantDate(t *testing.T) {
+	// a constant date, and a date equal to what the expression yields without input, are still dates
+	testExpression(t, mockContext(""), `{time "2020-01-01"}`, "1577836800")
+	testExpression(t, mockContext("2020-01-01"), `{time {coalesce {0} 2020-01-01}}`, "1577836800")
+}
+
 func TestTimeExpressionDetectionAuto(t *testing.T) {
 	testExpression(t,
 		mockContext("14/Apr/2016:19:12:25 +0200"),
